@@ -111,6 +111,14 @@ func init() {
 			ex.stdout = saved
 			return StrConst(out)
 		},
+		// verifOneSchedule(true): from here on the scheduler runs the first enabled transition instead of forking over
+		// every enabled one (used where the goroutines are the analyzer's own worker pool, whose schedules are the
+		// subject of C06 / C20, and the property under check is about the analysed program)
+		"verifOneSchedule": func(ex *Exec, fn *ssa.Function, args []Value) Value {
+			c := args[0].(*Term)
+			ex.oneSched = c.IsConst() && c.B
+			return nil
+		},
 		"verifRaceDetect": func(ex *Exec, fn *ssa.Function, args []Value) Value {
 			c := args[0].(*Term)
 			ex.race = c.IsConst() && c.B
